@@ -92,5 +92,5 @@ func H_C12_in_context() {
 	both := &bytes.Buffer{}
 	st := newStatement().Add(first).Add(target)
 	verifAssert(st.render(NewFile("p"), both, nil) == nil, "no error")
-	verifAssert(both.String() == b0.String()+" "+fresh, "two literals in one statement render as each alone")
+	verifAssert(specSameCode(both.String(), b0.String()+" "+fresh), "two literals in one statement render as each alone")
 }
